@@ -102,8 +102,12 @@ def composite_pieces():
     ueq = r'template <typename T, typename U,\s*typename = enable_if_t<std::is_base_of<Basic, T>::value\s*and std::is_base_of<Basic, U>::value>>\s*inline bool unified_eq\(const RCP<const T> &a, const RCP<const U> &b\)'
     unified = [Piece('symengine/dict.h', ucmp, rules=[R(ucmp, 'inline int unified_compare(const RCPBasic &a, const RCPBasic &b)', n=1, regex=True, why="SFINAE template header -> the instantiation T=U=Basic")], name='unified_compare<RCP>'),
                Piece('symengine/dict.h', ueq, rules=[R(ueq, 'inline bool unified_eq(const RCPBasic &a, const RCPBasic &b)', n=1, regex=True, why="SFINAE template header -> the instantiation T=U=Basic")], name='unified_eq<RCP>')]
+    osig = r'template <class T>\s*inline int ordered_compare\(const T &A, const T &B\)'
+    ordered = [Piece('symengine/dict.h', osig, rules=[R(r'template <class T>\s*inline int ordered_compare\(const T &A, const T &B\)', 'inline int ordered_compare(const vec3 &A, const vec3 &B)', n=1, regex=True, why="template header -> the instantiation for the vector stub"),
+                                                       R('auto a = A.begin();', 'RCPBasic *a = A.begin();', n=1, why="auto -> the iterator type (a pointer in the stub)"), R('auto b = B.begin();', 'RCPBasic *b = B.begin();', n=1),
+                                                       R('auto t = unified_compare', 'int t = unified_compare', n=1, why="auto -> int")], name='ordered_compare<vector>')]
     keyless = [Piece('symengine/basic.h', r'struct RCPBasicKeyLess \{', region_end=r'^\};', rules=CTOK, name='struct RCPBasicKeyLess')]
-    return {'keyless.inc': keyless, 'unified.inc': unified, 'hc.inc': hc, 'hcb.inc': hcb, 'free.inc': free, 'twoarg_inline.inc': two, 'onearg_inline.inc': one, 'comp.inc': comp}
+    return {'ordered.inc': ordered, 'keyless.inc': keyless, 'unified.inc': unified, 'hc.inc': hc, 'hcb.inc': hcb, 'free.inc': free, 'twoarg_inline.inc': two, 'onearg_inline.inc': one, 'comp.inc': comp}
 
 COMP_TRUSTED = [
     "children of a composite are abstract objects obeying the contract C01/C02 state for every expression (eq <=> equal rank; equal rank => equal hash; __cmp__ = order of ranks)",
@@ -128,6 +132,8 @@ def composite_unit(prop, Unit, Entry):
         ents.append(Entry(h, defines=d, route='F', timeout=600, mem_gb=6, unwind=8,
                           bounds="full domain: any children (6 abstract objects, any sharing/aliasing), any flags", label="%s_%s" % (h, nm)))
     if prop == 'C02':
+        ents.append(Entry('h_ordered_compare', defines={'CLS': 9, 'CLSNAME': '"ordered_compare"'}, route='B', timeout=600, mem_gb=6, unwind=8, label='h_ordered_compare',
+                          bounds="containers of at most 3 elements (any children, any sharing)"))
         ents.append(Entry('h_keyless', defines={'CLS': 8, 'CLSNAME': '"RCPBasicKeyLess"'}, route='F', timeout=600, mem_gb=6, unwind=8, label='h_keyless',
                           bounds="full domain: any three expressions obeying the C01/C02 contract (6 abstract objects, any sharing, hash collisions allowed)"))
     return Unit('composite', prop, 'contracts/common/composite.cpp', composite_pieces(), ents, route='F', trusted=COMP_TRUSTED,
